@@ -122,12 +122,13 @@ PROPS["C09"] = {
     "rule": ("TestC09RoundTrip: structured entries (any state, extreme timestamps, response nil or with compress settings, 0-12 header names multi-valued incl. empty/long/UTF-8 values, status 100-599, "
              "any subset of raw/gzip/br bodies 0..64 KiB, thorough 4 MiB): FromBytes(Bytes(x)) must give equal fields and identical Fill results for 5 Accept-Encoding values, and every strict prefix "
              "(all offsets <= 4 KiB, sampled beyond) must be rejected. TestC09Mutated: bit flips, length-field overwrites with hostile values, rotations and random bytes: no panic, allocation <= 8 MiB + 64*len, "
-             "successful decodes are fixed points. Non-trivial = response with >=2 header names and >=1 non-empty body (round trip) / input >= 12 bytes (mutated). Distinct by canonical scenario JSON."),
+             "successful decodes are fixed points. Thorough adds the native coverage-guided target FuzzC09FromBytes (same oracle inside the target; executions are added to evaluations). Non-trivial = response with >=2 header names and >=1 non-empty body (round trip) / input >= 12 bytes (mutated). Distinct by canonical scenario JSON."),
     "assumptions": ["entries are built through the hook VerifNewEntry; stored gzip/br variants are valid streams (Fill decodes them)",
                     "header values that are not valid UTF-8 are excluded by construction while the finding header-value-invalid-utf8 is open (counted under excluded_known)"],
     "jobs": [
         {"engine": "unit", "test": "TestC09RoundTrip", "quick": {"shards": 8, "checks": 1500, "timeout": 400}, "thorough": {"shards": 16, "checks": 40000, "timeout": 3400}},
         {"engine": "unit", "test": "TestC09Mutated", "quick": {"shards": 8, "checks": 3000, "timeout": 400}, "thorough": {"shards": 16, "checks": 100000, "timeout": 3400}},
+        {"engine": "fuzz", "test": "FuzzC09FromBytes", "rapid": False, "fuzz": True, "solo": True, "thorough": {"shards": 1, "fuzztime": "180s", "timeout": 600}},
         {"engine": "unit", "test": "TestC09ProbeInvalidUTF8", "rapid": False, "probe": True, "quick": {"shards": 1, "timeout": 60}, "thorough": {"shards": 1, "timeout": 60}},
     ],
 }
@@ -136,13 +137,14 @@ PROPS["C12"] = {
     "rule": ("Inputs = byte strings in size classes {0,1,2-64,65-4096,4K-64K,64K-256K (thorough 1 MiB)} x shapes {random, single-byte run, short period, JSON-like text, runs+noise} x levels -1..12. "
              "TestC12Encode: pike's Gzip/Brotli output must be restored by the stdlib gzip reader (clean trailer) / reference brotli reader and by pike's own decoders and Decompress. "
              "TestC12Decode: streams from reference encoders (stdlib gzip, brotli, snappy, zstd, pierrec lz4 fast+HC, an independent hand-written lz4 block encoder and literal-only blocks; ratios up to ~250x) must be restored exactly. "
-             "TestC12Malformed(+Zstd): truncations, bit flips, rotations, hostile length prefixes, random bytes: no panic, no call above 30 s. Non-trivial = size >= 65 or ratio > 10 or level outside 1..9 (encode/decode); >= 4 bytes (malformed)."),
+             "TestC12Malformed(+Zstd): truncations, bit flips, rotations, hostile length prefixes, random bytes: no panic, no call above 30 s. Thorough adds the native coverage-guided target FuzzC12Decoders (gunzip, br, lz4, snappy; no panic, deterministic result). Non-trivial = size >= 65 or ratio > 10 or level outside 1..9 (encode/decode); >= 4 bytes (malformed)."),
     "assumptions": ["snappy/zstd inputs that announce more than 16 MiB of decoded data are skipped (those libraries allocate the announced size up front; counted under excluded_known)",
                     "the zstd malformed-stream job runs with GOMAXPROCS=1 because pike's ZSTDDecode leaks the decoder's goroutines per call (observation outside the listed properties)"],
     "jobs": [
         {"engine": "unit", "test": "TestC12Encode", "quick": {"shards": 8, "checks": 300, "timeout": 500}, "thorough": {"shards": 16, "checks": 6000, "timeout": 3400}},
         {"engine": "unit", "test": "TestC12Decode", "quick": {"shards": 8, "checks": 400, "timeout": 500}, "thorough": {"shards": 16, "checks": 8000, "timeout": 3400}},
         {"engine": "unit", "test": "TestC12Malformed", "quick": {"shards": 8, "checks": 3000, "timeout": 500}, "thorough": {"shards": 16, "checks": 100000, "timeout": 3400}},
+        {"engine": "fuzz", "test": "FuzzC12Decoders", "rapid": False, "fuzz": True, "solo": True, "thorough": {"shards": 1, "fuzztime": "240s", "timeout": 900}},
         {"engine": "unit", "test": "TestC12MalformedZstd", "env": {"GOMAXPROCS": "1"}, "quick": {"shards": 2, "checks": 1000, "timeout": 500}, "thorough": {"shards": 8, "checks": 25000, "timeout": 3400}},
     ],
 }
